@@ -1280,6 +1280,7 @@ func RunC18(r *mon.Run) {
 func replayRPC(r *mon.Run, raw json.RawMessage) {
 	var doc struct {
 		Case *RPCCase `json:"case"`
+		Lane string   `json:"lane"`
 	}
 	var c RPCCase
 	if err := json.Unmarshal(raw, &doc); err == nil && doc.Case != nil {
@@ -1298,9 +1299,14 @@ func replayRPC(r *mon.Run, raw json.RawMessage) {
 		return
 	}
 	defer s.Close()
-	g := &c18run{r: r, s: s, bases: map[string]string{}}
 	o := c.Opts
 	c.Opts = Opts{}
+	if doc.Lane == "sockets" {
+		runSocketCases(r, s, []RPCCase{c}, []Opts{{}, o})
+		r.Distinct("replay-sockets")
+		return
+	}
+	g := &c18run{r: r, s: s, bases: map[string]string{}}
 	g.group(c, []Opts{{}, o})
 	r.Distinct("replay")
 }
